@@ -1,25 +1,261 @@
-//! C18 — not built yet (stub).
+//! C18 — collapse returns the best hit of each group.
+//! Finder (implementation only): the same request without collapse and with a limit covering
+//! all matches gives the full ranking; the collapsed response is checked against it (distinct
+//! groups, representative = best ranked of its group, group order, inner hits = window of the
+//! other members under the inner sort).
+//! Correspondence: `SL.Post.search` (mechanism model) on the matched hits vs the real response.
 use crate::proto::Driver;
 use crate::rng::Rng;
 use crate::summary::Summary;
 use crate::{Prop, Tier};
 use serde_json::{json, Value};
+use std::collections::{BTreeMap, BTreeSet, HashMap};
 
-pub struct Stub;
-pub static P: Stub = Stub;
+#[path = "post_common.rs"]
+pub mod common;
+use common::*;
 
-impl Prop for Stub {
+pub struct C18;
+pub static P: C18 = C18;
+
+/// copy the option keys of `case["req"]` onto the base request
+pub fn full_req(case: &Value) -> Value {
+  let mut r = base_req(case);
+  if let Some(m) = case["req"].as_object() {
+    for (k, v) in m {
+      if !v.is_null() {
+        r[k.as_str()] = v.clone();
+      }
+    }
+  }
+  r
+}
+
+/// the request that yields the ranking the post-processing step works on: same query, filter,
+/// sort, execution, explain flag; no collapse/rescore/cursor; limit covering everything
+pub fn ranking_req(case: &Value, sort: &Value) -> Value {
+  let mut r = base_req(case);
+  r["sort"] = sort.clone();
+  for k in ["execution", "explain"] {
+    if !case["req"][k].is_null() {
+      r[k] = case["req"][k].clone();
+    }
+  }
+  r
+}
+
+impl Prop for C18 {
   fn id(&self) -> &'static str {
     "C18"
   }
   fn rule(&self) -> &'static str {
-    "stub"
+    "case = random corpus (4..40 docs, 1..3 segments, optional deletes, ~10% docs without collapse value, skewed group sizes) + query (exact fast-field scores / constant / BM25) + optional filter + collapse request with random main sort, inner_hits (sort/from/size or absent), limit, candidate_size, execution, explain; non-trivial = the collapse field has a group with >= 2 matching members AND the response is checked against the uncollapsed full ranking; distinct = distinct case JSON"
   }
-  fn count(&self, _tier: Tier) -> usize {
-    0
+  fn count(&self, tier: Tier) -> usize {
+    tier.pick(300, 10000)
   }
-  fn gen(&self, _rng: &mut Rng, _tier: Tier, _i: usize) -> Value {
-    json!(null)
+  fn gen(&self, rng: &mut Rng, _tier: Tier, _i: usize) -> Value {
+    let corpus = gen_corpus(rng, 4, 40);
+    let n = corpus["docs"].as_array().map(|a| a.len()).unwrap_or(0);
+    let limit = match rng.below(10) {
+      0..=4 => 1 + rng.below(8),
+      5..=7 => n + 5,
+      _ => 9 + rng.below(12),
+    };
+    let mut collapse = json!({"field": "g"});
+    if !rng.chance(3, 10) {
+      let mut ih = json!({});
+      if !rng.chance(2, 5) {
+        ih["size"] = json!(rng.below(5));
+      }
+      if rng.chance(1, 2) {
+        ih["from"] = json!(rng.below(4));
+      }
+      ih["sort"] = if rng.chance(2, 5) { json!([]) } else { gen_sort(rng) };
+      collapse["inner_hits"] = ih;
+    }
+    let mut req = json!({"limit": limit, "sort": gen_sort(rng), "execution": gen_exec(rng), "collapse": collapse});
+    if rng.chance(3, 20) {
+      req["candidate_size"] = json!(limit + rng.below(10));
+    }
+    if rng.chance(1, 10) {
+      req["explain"] = json!(true);
+    }
+    let query = gen_query(rng);
+    settle_exec(&query, &mut req);
+    json!({"corpus": corpus, "query": query, "filter": gen_filter(rng), "req": req})
   }
-  fn run_case(&self, _drv: &mut Driver, _case: &Value, _s: &mut Summary) {}
+
+  fn run_case(&self, drv: &mut Driver, case: &Value, s: &mut Summary) {
+    let built = match build(&case["corpus"]) {
+      Ok(b) => b,
+      Err(e) => {
+        s.disagree("harness.build", case, json!(e), json!(null));
+        return;
+      }
+    };
+    let lay = match layout(&built.reader, &case["corpus"]) {
+      Ok(l) => l,
+      Err(e) => {
+        s.disagree("harness.layout", case, json!(e), json!(null));
+        return;
+      }
+    };
+    let req = full_req(case);
+    let sort = req["sort"].clone();
+    let rk = ranking_req(case, &sort);
+    let full = match run(&built.reader, &rk) {
+      Ok(r) => r,
+      Err(e) => {
+        s.case(case, false);
+        s.count(&format!("ranking_error:{}", e.chars().take(40).collect::<String>()));
+        return;
+      }
+    };
+    let resp = match run(&built.reader, &req) {
+      Ok(r) => r,
+      Err(e) => {
+        s.case(case, true);
+        s.fail("collapse.error", "collapsed request fails although the uncollapsed request succeeds", case, json!(e));
+        return;
+      }
+    };
+    // group value per id, from the corpus
+    let gval: HashMap<String, Option<String>> = case["corpus"]["docs"].as_array().cloned().unwrap_or_default().iter().map(|d| (d["_id"].as_str().unwrap_or("").to_string(), d["g"].as_str().map(|x| x.to_string()))).collect();
+    let pos_f: HashMap<String, usize> = full.hits.iter().enumerate().map(|(i, h)| (h.doc_id.clone(), i)).collect();
+    let mut sizes: BTreeMap<String, usize> = BTreeMap::new();
+    for h in &full.hits {
+      if let Some(Some(g)) = gval.get(&h.doc_id) {
+        *sizes.entry(g.clone()).or_insert(0) += 1;
+      }
+    }
+    let nontrivial = sizes.values().any(|n| *n >= 2);
+    s.case(case, nontrivial);
+    s.count(&format!("groups:{}", sizes.len().min(6)));
+    s.count(&format!("max_group:{}", sizes.values().max().cloned().unwrap_or(0).min(8)));
+    s.count(if plan_json(&sort) == json!([{"f":"score","desc":true}]) { "sort:score_fast" } else { "sort:other" });
+    let ih = req["collapse"]["inner_hits"].clone();
+    s.count(if ih.is_null() { "inner:none" } else { "inner:some" });
+    s.count(&format!("segments:{}", lay.nseg));
+
+    // ---------------- finder: the statement on the implementation alone ----------------
+    let top_k = top_k_of(&req);
+    let fetched = fetched_ids(&full.hits, &lay, &req);
+    let mut seen: BTreeSet<String> = BTreeSet::new();
+    let mut last_pos: Option<usize> = None;
+    // inner-sort ranking (second oracle run) when inner hits are requested
+    let inner_rank: Option<HashMap<String, usize>> = if ih.is_null() {
+      None
+    } else {
+      match run(&built.reader, &ranking_req(case, &ih["sort"])) {
+        Ok(r) => Some(r.hits.iter().enumerate().map(|(i, h)| (h.doc_id.clone(), i)).collect()),
+        Err(_) => None,
+      }
+    };
+    // deep-fetch twin of the request (limit and candidate_size covering everything, so every group
+    // is present), for classification
+    let deep = {
+      let mut r = req.clone();
+      r["candidate_size"] = json!(ALL);
+      r["limit"] = json!(ALL);
+      run(&built.reader, &r).ok()
+    };
+    let main_uses_score = plan_json(&sort).as_array().map(|a| a.iter().any(|p| p["f"] == "score")).unwrap_or(false);
+    let inner_uses_score = !ih.is_null() && plan_json(&ih["sort"]).as_array().map(|a| a.iter().any(|p| p["f"] == "score")).unwrap_or(false);
+    for (hi, h) in resp.hits.iter().enumerate() {
+      let g = match gval.get(&h.doc_id).cloned().flatten() {
+        Some(g) => g,
+        None => {
+          s.fail("collapse.hit-without-value", "a returned hit has no value in the collapse field", case, json!({"hit": h.doc_id}));
+          continue;
+        }
+      };
+      if !seen.insert(g.clone()) {
+        s.fail("collapse.duplicate-group", "two returned hits share a collapse value", case, json!({"group": g, "hits": hit_ids(&resp.hits)}));
+      }
+      let p = match pos_f.get(&h.doc_id) {
+        Some(p) => *p,
+        None => {
+          s.fail("collapse.hit-not-in-ranking", "a returned hit is not a match of the uncollapsed request", case, json!({"hit": h.doc_id}));
+          continue;
+        }
+      };
+      let group: Vec<&str> = full.hits.iter().filter(|x| gval.get(&x.doc_id).cloned().flatten().as_deref() == Some(g.as_str())).map(|x| x.doc_id.as_str()).collect();
+      if group.first().copied() != Some(h.doc_id.as_str()) {
+        // classification: with a fetch depth covering everything (implementation only), is the
+        // representative of this group the best one?
+        let deep_rep: Option<String> = deep.as_ref().and_then(|d| d.hits.iter().find(|x| gval.get(&x.doc_id).cloned().flatten().as_deref() == Some(g.as_str()))).map(|x| x.doc_id.clone());
+        let obs = json!({"group": g, "returned": h.doc_id, "best": group.first(), "with_candidate_size_all": deep_rep, "segments": lay.nseg, "top_k": top_k});
+        if deep_rep.as_deref() == group.first().copied() && !fetched.contains(group[0]) {
+          s.fail("collapse.rep-beyond-fetched", "on the score fast path each segment ranks only its own max(limit,candidate_size)+1 best: the best document of a group is not fetched while a worse member from another segment is, and becomes the representative", case, obs);
+        } else {
+          s.fail("collapse.rep-not-best", "the returned hit is not the best-ranked document of its group", case, obs);
+        }
+        // inner hits relative to a wrong representative are not judged
+        last_pos = Some(p);
+        continue;
+      }
+      if let Some(lp) = last_pos {
+        if p < lp {
+          s.fail("collapse.group-order", "groups are not in the order of their best hits", case, json!({"hits": hit_ids(&resp.hits)}));
+        }
+      }
+      last_pos = Some(p);
+      if !close32(h.score, full.hits[p].score) {
+        s.fail("collapse.score-changed", "collapse changed a hit's score", case, json!({"hit": h.doc_id, "collapsed": h.score, "plain": full.hits[p].score}));
+      }
+      let inner: Vec<String> = h.inner_hits.as_ref().map(|v| hit_ids(v)).unwrap_or_default();
+      if ih.is_null() {
+        if !inner.is_empty() {
+          s.fail("collapse.inner-unrequested", "inner hits returned without inner_hits in the request", case, json!({"hit": h.doc_id, "inner": inner}));
+        }
+        continue;
+      }
+      let others: Vec<&str> = group.iter().copied().filter(|x| *x != h.doc_id.as_str()).collect();
+      if let Some(bad) = inner.iter().find(|x| !others.contains(&x.as_str())) {
+        s.fail("collapse.inner-foreign", "an inner hit is the representative itself or belongs to another group", case, json!({"hit": h.doc_id, "inner": inner, "bad": bad}));
+        continue;
+      }
+      if let Some(rank) = &inner_rank {
+        let mut sorted: Vec<&str> = others.clone();
+        sorted.sort_by_key(|x| rank.get(*x).cloned().unwrap_or(usize::MAX));
+        let from = ih["from"].as_u64().unwrap_or(0) as usize;
+        let size = ih["size"].as_u64().map(|x| x as usize).unwrap_or(usize::MAX);
+        let want: Vec<String> = sorted.iter().skip(from).take(size).map(|x| x.to_string()).collect();
+        if want != inner {
+          // classification: does fetching deeper (implementation only) give the expected window?
+          let deep_inner: Option<Vec<String>> = deep.as_ref().and_then(|d| d.hits.iter().find(|x| x.doc_id == h.doc_id)).map(|x| x.inner_hits.as_ref().map(|v| hit_ids(v)).unwrap_or_default());
+          let beyond = group.iter().any(|x| !fetched.contains(*x));
+          let obs = json!({"hit": h.doc_id, "hit_index": hi, "group": g, "inner": inner, "expected": want, "with_candidate_size_all": deep_inner, "top_k": top_k});
+          if deep_inner.as_ref() == Some(&want) && beyond {
+            s.fail("collapse.inner-beyond-fetched", "inner hits are the window of the group members among the fetched max(limit,candidate_size)+1 hits only, not of the group", case, obs);
+          } else if !main_uses_score && inner_uses_score {
+            s.fail("collapse.inner-score-sort-without-scores", "inner sort uses _score but the main sort does not, so scores were never computed and inner hits come in document order", case, obs);
+          } else {
+            s.fail("collapse.inner-window", "inner hits are not (drop from . take size) of the other group members under the inner sort", case, obs);
+          }
+        }
+      }
+    }
+    // not part of the statement, recorded as distribution only
+    if resp.hits.len() < (req["limit"].as_u64().unwrap_or(0) as usize).min(sizes.len()) {
+      s.count("note:fewer_groups_than_limit_although_more_exist");
+    }
+    if resp.total_groups != Some(sizes.len() as u64) {
+      s.count("note:total_groups_counts_fetched_hits_only");
+    }
+
+    // ---------------- correspondence: mechanism model vs implementation ----------------
+    let scores = match raw_scores(&built.reader, &rk, &full) {
+      Ok(x) => x,
+      Err(e) => {
+        s.disagree("harness.raw_scores", case, json!(e), json!(null));
+        return;
+      }
+    };
+    let m = drv.call("C18", model_req(&req, &lay, model_hits(&lay, &scores, None), None, false));
+    if let Some(d) = compare(&m, &resp, &lay, total_is_exact(&req, &case["query"])) {
+      s.disagree("post.search", case, json!({"diff": d, "hits": hit_ids(&resp.hits), "total_groups": resp.total_groups}), m);
+    }
+  }
 }
